@@ -51,6 +51,10 @@ pub struct PadCase {
     /// with `real_first_batch`: false = no destination frame; the first payload of the list is the frame that
     /// flushes the buffered Settings + SYN (so its size varies)
     pub dest_first: bool,
+    /// control operations performed before the payload with the given index (or after the last one):
+    /// 1 = keep-alive request written by another part of the session, 2 = a second stream is opened (SYN),
+    /// 3 = an over-long frame the encoder refuses, 4 = the peer sends a keep-alive request (the session answers)
+    pub ctl: Vec<(usize, u8)>,
 }
 
 #[derive(Clone, Debug, Default)]
@@ -83,6 +87,7 @@ fn pad_scenario(case: PadCase, slot: Arc<Mutex<Option<PadResult>>>) -> ScenarioF
                 Arc::new(Session::new_client(link.sess_r, link.sess_w, factory, None))
             };
             let peer = link.peer;
+            let inj = peer.inj.clone();
             tokio::spawn(peer.sink());
             let mut sid = 1u32;
             if case.real_first_batch && !case.server_role {
@@ -107,7 +112,41 @@ fn pad_scenario(case: PadCase, slot: Arc<Mutex<Option<PadResult>>>) -> ScenarioF
                     Err(e) => res.errors.push(format!("open_stream: {e}")),
                 }
             }
-            for (i, n) in case.payloads.iter().enumerate() {
+            let mut second: Option<Arc<anytls_rs::session::Stream>> = None;
+            for i in 0..=case.payloads.len() {
+                for (_, op) in case.ctl.iter().filter(|(at, _)| *at == i) {
+                    use anytls_rs::protocol::{Command, Frame};
+                    match op {
+                        1 => match sess.write_control_frame(Frame::control(Command::HeartRequest, 0)).await {
+                            Ok(()) => res.submitted.push(RFrame::new(HEART_REQ, 0, b"")),
+                            Err(e) => res.errors.push(format!("keep-alive request: {e}")),
+                        },
+                        2 => match sess.open_stream().await {
+                            Ok((st, _rx)) => {
+                                res.submitted.push(RFrame::new(SYN, st.id(), b""));
+                                second = Some(st);
+                            }
+                            Err(e) => res.errors.push(format!("second open_stream: {e}")),
+                        },
+                        3 => {
+                            // refused by the encoder: never reaches the wire, is not a packet
+                            let big = Bytes::from(vec![0x55u8; 70_000]);
+                            if sess.write_frame(Frame::with_data(Command::Settings, 0, big)).await.is_ok() {
+                                res.errors.push("a control frame with a 70 000-byte payload was accepted".into());
+                            }
+                        }
+                        _ => {
+                            inj.push(&enc(HEART_REQ, 9, b""));
+                            crate::ctl::settle().await;
+                            tokio::time::sleep(Duration::from_millis(5)).await;
+                            res.submitted.push(RFrame::new(HEART_RESP, 9, b""));
+                        }
+                    }
+                }
+                if i == case.payloads.len() {
+                    break;
+                }
+                let n = &case.payloads[i];
                 let data = pat_vec(3, 0, i * 7, *n);
                 match tokio::time::timeout(Duration::from_secs(3600), sess.write_data_frame(sid, Bytes::from(data.clone()))).await {
                     Ok(Ok(())) => {
@@ -122,6 +161,7 @@ fn pad_scenario(case: PadCase, slot: Arc<Mutex<Option<PadResult>>>) -> ScenarioF
                     Err(_) => res.errors.push(format!("write #{i} ({n} bytes): blocked forever")),
                 }
             }
+            drop(second);
             res.batches = batches(&wire);
             *slot.lock().unwrap() = Some(res);
             Outcome::default()
@@ -233,7 +273,38 @@ fn first_flush_cases() -> Vec<PadCase> {
     for line in ["", "30-30", "100-400,c,65535-65535", "7-7,8-8", "400-400,c,30000-30000"] {
         for first in [0usize, 1, 493, 8192, 16377, 16378, 16384, 32768, 65528, 65535, 65536, 70000] {
             let scheme = if line.is_empty() { "stop=0".to_string() } else { scheme_text(3, line, None) };
-            cases.push(PadCase { scheme, draw: DrawPolicy::Max, payloads: vec![first, 5, 40], real_first_batch: true, server_role: false, dest_first: false });
+            cases.push(PadCase { scheme, draw: DrawPolicy::Max, payloads: vec![first, 5, 40], real_first_batch: true, server_role: false, dest_first: false, ctl: vec![] });
+        }
+    }
+    cases
+}
+
+/// Packets that are not data frames: keep-alive requests and answers, the SYN of a second stream, a refused frame —
+/// at every position among four data packets, singly and in pairs, under schemes whose lines all differ (a packet
+/// counter that skips or repeats an index shows as a wrong shape) and whose stop falls inside the sequence.
+fn mixed_packet_cases(thorough: bool) -> Vec<PadCase> {
+    const DISTINCT: &str = "stop=9\n1=20-20,50-50\n2=70-70\n3=100-100,c,31-31\n4=33-33\n5=9-9,c,200-200\n6=41-41\n7=300-300,c,64-64\n8=15-15";
+    const STOP4: &str = "stop=4\n1=20-20,50-50\n2=70-70\n3=100-100,c,31-31\n4=33-33\n5=9-9,c,200-200";
+    const STOP6: &str = "stop=6\n1=400-400\n2=8-8,8-8,8-8\n3=c,90-90\n4=33-33\n5=9-9,c,200-200\n6=77-77";
+    let mut cases = vec![];
+    let mut ops: Vec<(usize, u8)> = vec![];
+    for at in 0..=4usize {
+        for op in 1..=4u8 {
+            ops.push((at, op));
+        }
+    }
+    let mut ctls: Vec<Vec<(usize, u8)>> = ops.iter().map(|o| vec![*o]).collect();
+    for a in 0..ops.len() {
+        for b in a..ops.len() {
+            if ops[a].0 <= ops[b].0 && (thorough || (ops[a].1 != 3 || ops[b].1 != 3)) {
+                ctls.push(vec![ops[a], ops[b]]);
+            }
+        }
+    }
+    for scheme in [DISTINCT, STOP4, STOP6] {
+        for ctl in &ctls {
+            // op 4 needs the receive loop (real first batch); op 2 needs start_client too
+            cases.push(PadCase { scheme: scheme.to_string(), draw: DrawPolicy::Min, payloads: vec![5, 40, 300, 23], real_first_batch: true, server_role: false, dest_first: true, ctl: ctl.clone() });
         }
     }
     cases
@@ -245,9 +316,9 @@ fn long_line_cases(thorough: bool) -> Vec<PadCase> {
         let draws: Vec<DrawPolicy> = if line.contains("100-400") { vec![DrawPolicy::Min, DrawPolicy::Alternate] } else { vec![DrawPolicy::Min] };
         for draw in draws {
             for p in [0usize, 1, 23, 31, 100, 493] {
-                cases.push(PadCase { scheme: scheme_text(3, &line, None), draw, payloads: vec![p; 3], real_first_batch: false, server_role: false, dest_first: true });
+                cases.push(PadCase { scheme: scheme_text(3, &line, None), draw, payloads: vec![p; 3], real_first_batch: false, server_role: false, dest_first: true, ctl: vec![] });
             }
-            cases.push(PadCase { scheme: scheme_text(3, &line, None), draw, payloads: vec![5, 300, 0], real_first_batch: true, server_role: false, dest_first: true });
+            cases.push(PadCase { scheme: scheme_text(3, &line, None), draw, payloads: vec![5, 300, 0], real_first_batch: true, server_role: false, dest_first: true, ctl: vec![] });
         }
     }
     cases
@@ -289,24 +360,25 @@ pub fn run_c04(tier: Tier) -> i32 {
                     if *p == 65535 && !thorough && line.matches(',').count() >= 1 && stop != 2 {
                         continue;
                     }
-                    cases.push(PadCase { scheme: scheme_text(stop, line, None), draw, payloads: vec![*p; n], real_first_batch: false, server_role: false, dest_first: true });
+                    cases.push(PadCase { scheme: scheme_text(stop, line, None), draw, payloads: vec![*p; n], real_first_batch: false, server_role: false, dest_first: true, ctl: vec![] });
                 }
-                cases.push(PadCase { scheme: scheme_text(stop, line, None), draw, payloads: vec![5, 300, 0, 40], real_first_batch: true, server_role: false, dest_first: true });
+                cases.push(PadCase { scheme: scheme_text(stop, line, None), draw, payloads: vec![5, 300, 0, 40], real_first_batch: true, server_role: false, dest_first: true, ctl: vec![] });
                 if stop >= 2 {
-                    cases.push(PadCase { scheme: scheme_text(stop, line, Some(2)), draw, payloads: vec![10, 10, 10, 10], real_first_batch: false, server_role: false, dest_first: true });
+                    cases.push(PadCase { scheme: scheme_text(stop, line, Some(2)), draw, payloads: vec![10, 10, 10, 10], real_first_batch: false, server_role: false, dest_first: true, ctl: vec![] });
                 }
             }
         }
     }
     cases.extend(long_line_cases(thorough));
     cases.extend(first_flush_cases());
+    cases.extend(mixed_packet_cases(thorough));
     // over-long chunk (several frames in one call) under padding
     for line in ["30-30", "100-400,c,65535-65535", "7-7,8-8"] {
-        cases.push(PadCase { scheme: scheme_text(3, line, None), draw: DrawPolicy::Max, payloads: vec![70000, 131072], real_first_batch: true, server_role: false, dest_first: true });
+        cases.push(PadCase { scheme: scheme_text(3, line, None), draw: DrawPolicy::Max, payloads: vec![70000, 131072], real_first_batch: true, server_role: false, dest_first: true, ctl: vec![] });
     }
     // server role never pads
     for line in ["30-30", "100-400"] {
-        cases.push(PadCase { scheme: scheme_text(3, line, None), draw: DrawPolicy::Max, payloads: vec![5, 50, 500], real_first_batch: false, server_role: true, dest_first: true });
+        cases.push(PadCase { scheme: scheme_text(3, line, None), draw: DrawPolicy::Max, payloads: vec![5, 50, 500], real_first_batch: false, server_role: true, dest_first: true, ctl: vec![] });
     }
     let n_cases = cases.len();
     let cases = Arc::new(cases);
@@ -381,7 +453,7 @@ pub fn pad_child(scheme: &str, payload: usize) -> i32 {
         let lim = libc::rlimit { rlim_cur: 4 << 30, rlim_max: 4 << 30 };
         libc::setrlimit(libc::RLIMIT_AS, &lim);
     }
-    let case = PadCase { scheme: scheme.to_string(), draw: DrawPolicy::Max, payloads: vec![payload; 4], real_first_batch: false, server_role: false, dest_first: true };
+    let case = PadCase { scheme: scheme.to_string(), draw: DrawPolicy::Max, payloads: vec![payload; 4], real_first_batch: false, server_role: false, dest_first: true, ctl: vec![] };
     match run_pad_case(&case) {
         None => {
             println!("CHILD-OK (scheme rejected)");
@@ -540,7 +612,7 @@ pub fn make_c05_dx(n_writers: usize, scheme: &'static str) -> ScenarioFn {
         for h in hs {
             let _ = h.await;
         }
-        let case = PadCase { scheme: scheme.to_string(), draw: DrawPolicy::Min, payloads: vec![], real_first_batch: false, server_role: false, dest_first: true };
+        let case = PadCase { scheme: scheme.to_string(), draw: DrawPolicy::Min, payloads: vec![], real_first_batch: false, server_role: false, dest_first: true, ctl: vec![] };
         let r = PadResult { batches: batches(&wire), submitted: vec![], errors: vec![], panicked: false };
         for (k, d) in c05_oracle(&case, &r) {
             out.viol(k, d);
@@ -653,18 +725,19 @@ pub fn run_c05(tier: Tier) -> i32 {
                     if *p == 65528 && !thorough && line.matches(',').count() >= 1 && stop != 2 {
                         continue;
                     }
-                    cases.push(PadCase { scheme: scheme_text(stop, line, None), draw, payloads: vec![*p; n], real_first_batch: false, server_role: false, dest_first: true });
+                    cases.push(PadCase { scheme: scheme_text(stop, line, None), draw, payloads: vec![*p; n], real_first_batch: false, server_role: false, dest_first: true, ctl: vec![] });
                 }
-                cases.push(PadCase { scheme: scheme_text(stop, line, None), draw, payloads: vec![5, 300, 0, 40], real_first_batch: true, server_role: false, dest_first: true });
+                cases.push(PadCase { scheme: scheme_text(stop, line, None), draw, payloads: vec![5, 300, 0, 40], real_first_batch: true, server_role: false, dest_first: true, ctl: vec![] });
                 if stop >= 3 {
-                    cases.push(PadCase { scheme: scheme_text(stop, line, Some(2)), draw, payloads: vec![10, 10, 10, 10], real_first_batch: false, server_role: false, dest_first: true });
+                    cases.push(PadCase { scheme: scheme_text(stop, line, Some(2)), draw, payloads: vec![10, 10, 10, 10], real_first_batch: false, server_role: false, dest_first: true, ctl: vec![] });
                 }
             }
         }
-        cases.push(PadCase { scheme: scheme_text(3, line, None), draw: DrawPolicy::Max, payloads: vec![5, 50, 500], real_first_batch: false, server_role: true, dest_first: true });
+        cases.push(PadCase { scheme: scheme_text(3, line, None), draw: DrawPolicy::Max, payloads: vec![5, 50, 500], real_first_batch: false, server_role: true, dest_first: true, ctl: vec![] });
     }
     cases.extend(long_line_cases(thorough));
     cases.extend(first_flush_cases());
+    cases.extend(mixed_packet_cases(thorough));
     // spellings: the same kind of scheme written in every way the text format allows (spaces, CRLF, leading zeros and
     // signs, key order, duplicate keys, stop not first / duplicated / larger than the number of lines)
     for text in [
@@ -688,12 +761,12 @@ pub fn run_c05(tier: Tier) -> i32 {
         "stop=4294967295\n1=30-30\n2=40-40",
     ] {
         for first in [false, true] {
-            cases.push(PadCase { scheme: text.to_string(), draw: DrawPolicy::Min, payloads: vec![10, 10, 10, 10, 10], real_first_batch: first, server_role: false, dest_first: true });
+            cases.push(PadCase { scheme: text.to_string(), draw: DrawPolicy::Min, payloads: vec![10, 10, 10, 10, 10], real_first_batch: first, server_role: false, dest_first: true, ctl: vec![] });
         }
     }
     // the default scheme with the real first batch and every draw policy
     for draw in [DrawPolicy::Min, DrawPolicy::Max, DrawPolicy::MinPlus1, DrawPolicy::Mid] {
-        cases.push(PadCase { scheme: DEFAULT.to_string(), draw, payloads: vec![100, 2000, 5, 5, 5, 5, 5, 5, 5, 5], real_first_batch: true, server_role: false, dest_first: true });
+        cases.push(PadCase { scheme: DEFAULT.to_string(), draw, payloads: vec![100, 2000, 5, 5, 5, 5, 5, 5, 5, 5], real_first_batch: true, server_role: false, dest_first: true, ctl: vec![] });
     }
     let n_cases = cases.len();
     let cases = Arc::new(cases);
